@@ -279,8 +279,8 @@ def run(ctx, report: Report) -> None:
     # ---- R7 ------------------------------------------------------------------------------------------------
     r7 = report.rule('C08-R7', 'the state pseudo-classes never raise on trees with multi-valued (list) attributes and odd text', floor=100)
     from ..core import Rule
-    from .sem import dir_table, lang_table, lang_memo_table
-    for table in (lang_table, lang_memo_table, dir_table):
+    from .sem import children_table, descendants_table, dir_table, lang_table, lang_memo_table, root_table
+    for table in (lang_table, lang_memo_table, dir_table, descendants_table, children_table, root_table):
         scratch = Rule(r7.rid, r7.title)
         table(ctx, scratch)
         r7.instances += scratch.instances
